@@ -15,12 +15,16 @@ import (
 //	table:    every a in [-60,60] x every odd n in [1,59]
 //	boundary: every a in V± x every n in V\{0} (odd n: value; even n: the documented refusal)
 func jacobiBody() func(*engine.X) {
+	bound := int64(60) // the repository's own table range
+	if engine.Thorough() {
+		bound = 500
+	}
 	var small []*big.Int
-	for a := int64(-60); a <= 60; a++ {
+	for a := -bound; a <= bound; a++ {
 		small = append(small, bi(a))
 	}
 	var ns []*big.Int
-	for n := int64(1); n < 60; n += 2 {
+	for n := int64(1); n < bound; n += 2 {
 		ns = append(ns, bi(n))
 	}
 	nTable := len(ns)
